@@ -49,8 +49,10 @@ def handle (s : St) (ws : List String) : St × String :=
   | _ =>
     match parseOp ws with
     | some op =>
+      if op.isLifecycle && (s.waitBlocked || s.closeBlocked) then (s, "skipped") else
       let (s', o) := step s op
-      (s', " ".intercalate (o.map obsS ++ [s!"st={s'.ms}"]))
+      let ce := match s'.cont with | some b => b01 b | none => "E"
+      (s', " ".intercalate (o.map obsS ++ [s!"st={s'.ms}", s!"ce={ce}"]))
     | none => (s, "bad-op")
 
 def main : IO Unit := do
